@@ -530,6 +530,41 @@ func memberVal(l *ssa.Lookup) ssa.Value {
 	return l
 }
 
+// localMapSites: v is a function-local map variable — a MakeMap, or a phi of nil and MakeMaps
+// (allocated on first use); the allocation sites, empty when v may be anything else.
+func localMapSites(v ssa.Value) map[*ssa.MakeMap]bool {
+	out := map[*ssa.MakeMap]bool{}
+	seen := map[ssa.Value]bool{}
+	ok := true
+	var walk func(v ssa.Value)
+	walk = func(v ssa.Value) {
+		v = an.Unwrap(v)
+		if v == nil || seen[v] {
+			return
+		}
+		seen[v] = true
+		switch x := v.(type) {
+		case *ssa.MakeMap:
+			out[x] = true
+		case *ssa.Phi:
+			for _, e := range x.Edges {
+				walk(e)
+			}
+		case *ssa.Const:
+			if !x.IsNil() {
+				ok = false
+			}
+		default:
+			ok = false
+		}
+	}
+	walk(v)
+	if !ok {
+		return nil
+	}
+	return out
+}
+
 func runMatchPair(c *core.Ctx) {
 	P := c.P
 	match := P.Method(P.Root, "ReqFilterEventLimitMatcher", "Match")
@@ -591,7 +626,7 @@ func runMatchPair(c *core.Ctx) {
 	var mu *ssa.MapUpdate
 	an.Instrs(host, func(in ssa.Instruction) {
 		if m, ok := in.(*ssa.MapUpdate); ok && tr(m.Key) == ev+".Tags[*][0]" {
-			if _, local := an.Unwrap(m.Map).(*ssa.MakeMap); local {
+			if len(localMapSites(m.Map)) > 0 {
 				mu = m
 			}
 		}
@@ -618,6 +653,28 @@ func runMatchPair(c *core.Ctx) {
 		}
 		fr := an.SymFrame("len("+an.PathOf(mu.Map)+")", "len("+condMap+")").AssumePresent(condMap)
 		fr.Domain = nil
+		// the found set may be allocated lazily (`var found map…; … if found == nil { found = make(…) }`):
+		// the subject is len() of any value of that local variable
+		sites := localMapSites(mu.Map)
+		fr.IsSubject = func(v ssa.Value) bool {
+			call, ok := v.(*ssa.Call)
+			if !ok {
+				return false
+			}
+			if b, isB := call.Call.Value.(*ssa.Builtin); !isB || b.Name() != "len" {
+				return false
+			}
+			got := localMapSites(call.Call.Args[0])
+			if len(got) == 0 || len(got) != len(sites) {
+				return false
+			}
+			for k := range got {
+				if !sites[k] {
+					return false
+				}
+			}
+			return true
+		}
 		// (read off the paths on which the host's verdict may be true: the count must be ≥ #conditions)
 		if tps, ok := an.ResultPaths(host, 0, true); ok && len(tps) > 0 {
 			acc := an.Empty()
